@@ -66,6 +66,8 @@ class SampleWorld:
             raise RoleLost("TropicalSampleResult / Metadata aggregates in sample", wanted=builds_adt("TropicalSampleResult", "Metadata"))
 
         def producer1(rv, field):
+            if field not in rv["fields"]:
+                return None       # computed where the struct is built (inside a closure): no producer in this body
             op = rv["ops"][rv["fields"].index(field)]
             t = v.call_term(v.deep_root(op))
             return R.body_of_callee(t.get("callee")) if t is not None else None
